@@ -35,7 +35,25 @@ pub fn encoder_res(h: &SparseMatrix, msgs: &[Vec<bool>]) -> String {
 }
 
 /// matrix families of C02 / C09 with r rows, n columns (1 <= r <= n)
+/// A matrix from one of the families below; a third of them are then rebuilt with their ones inserted in a random order
+/// (the same set of ones, other adjacency-list orders: e.g. a staircase row whose parity entries precede its systematic ones).
 pub fn gen_h(rng: &mut Rng, maxr: usize, maxn: usize) -> (SparseMatrix, &'static str) {
+    let (h, fam) = gen_h_family(rng, maxr, maxn);
+    if rng.chance(1, 3) {
+        let mut ones: Vec<(usize, usize)> = h.iter_all().collect();
+        for i in (1..ones.len()).rev() {
+            ones.swap(i, rng.below(i + 1));
+        }
+        let mut g = SparseMatrix::new(h.num_rows(), h.num_cols());
+        for (r, c) in ones {
+            g.insert(r, c);
+        }
+        return (g, fam);
+    }
+    (h, fam)
+}
+
+fn gen_h_family(rng: &mut Rng, maxr: usize, maxn: usize) -> (SparseMatrix, &'static str) {
     let fam = rng.below(8);
     let r = rng.range(1, maxr);
     let n = if fam == 4 { r } else { rng.range(r, maxn.max(r)) };
